@@ -1,14 +1,14 @@
 SPECIFICATION Spec
 CONSTANTS
-  Part = "sessions"
+  Part = "c15seq"
   MaxLinesA = 1
   MaxLinesB = 1
-  KF_FindUnitRelock = TRUE
+  KF_FindUnitRelock = FALSE
   MaxOps = 0
   ExportOps = 0
-  VerifierRemembersTokens = FALSE
+  VerifierRemembersTokens = TRUE
   RedactNeedsTLSRecord = FALSE
   KeyFamily = "cover"
   DumpFile = ""
 INVARIANTS
-  NoDeadlock
+  NoEffectWithoutTokenSeq
